@@ -642,6 +642,29 @@ def oracle_C14(sc, res):
                 if group_of(sc, t1) and group_of(sc, t1) == group_of(sc, t2) and \
                         i1["rec"]["env"].get("NEXTEST_TEST_GROUP_SLOT") == i2["rec"]["env"].get("NEXTEST_TEST_GROUP_SLOT"):
                     return f"{t1['name']} and {t2['name']} alive at the same time share a group slot"
+    # compact: each global slot is the smallest one free when the test was dispatched. A test holds its slot from
+    # its dispatch (shortly before its first process starts) until its last attempt has been dealt with (retry
+    # delays and the leak check included), so slot j counts as taken at time s when some other test with slot j
+    # started before s (+ spawn latency) and had not ended 0.3 s before s.
+    span = {}
+    for s0, e0, t0, i0 in iv:
+        key = (t0["bin"], t0["name"])
+        gs = i0["rec"]["env"].get("NEXTEST_TEST_GLOBAL_SLOT")
+        a = span.get(key)
+        span[key] = (min(a[0], s0) if a else s0, max(a[1], e0) if a else e0, int(gs))
+    tapd = tap_by_test(res)
+    for key in list(span):
+        fin = [e["mono"] for e in tapd.get(key, []) if e["kind"] == "TestFinished" and "mono" in e]
+        if fin:
+            span[key] = (span[key][0], max(span[key][1], fin[-1]), span[key][2])
+        else:
+            span[key] = (span[key][0], res["t_end"], span[key][2])   # never reported finished: held to the end
+    if True:
+        for key, (s0, e0, k) in span.items():
+            for j in range(k):
+                if not any(o != key and oj == j and os_ < s0 + 0.05 and oe > s0 - 0.3 for o, (os_, oe, oj) in span.items()):
+                    return (f"{key} was given global slot {k} although slot {j} was free when it was dispatched "
+                            f"(no other test holding slot {j} was alive around its start)")
     return None
 
 
